@@ -641,3 +641,22 @@ def finalize_on_stop(ctx):
             break
     ctx.check(good, 'AbstractSolver.Step', 'Finalize() follows a truthy Terminated() after _Step',
               'after _Step a terminated solver is no longer finalized', f, st)
+
+
+@rule('C05.k', min_instances=6)
+def wrappers_pass_the_limits_on(ctx):
+    """every wrapper hands its own maxiter / maxfun to <solver>.SetEvaluationLimits on every path before Solve (otherwise the caller's limits are never in force and warnflag is computed against the defaults)"""
+    for anchor in WRAPPERS:
+        f = ctx.func(anchor)
+        r = wrapper_forwarding(ctx, f)
+        ctx.need(r['paths'] >= 1, '%s: no path reaches Solve' % f.qualname)
+        ctx.stats['paths_enumerated'] += r['paths']
+        want = [('name', 'maxiter'), ('name', 'maxfun')]
+        bad = None
+        for p, seen, lits in r['per_path']:
+            calls = seen.get('SetEvaluationLimits', [])
+            ok_ = any((a[:2] == want) or (k.get('generations') == want[0] and k.get('evaluations') == want[1]) for _, a, k, _ in calls)
+            if not ok_:
+                bad = p
+        ctx.check(bad is None, f.qualname + '#limits', 'SetEvaluationLimits(maxiter, maxfun) on all %d paths to Solve' % r['paths'],
+                  '%s reaches Solve without handing its maxiter / maxfun to the solver (path %s)' % (f.qualname, bad.describe(5) if bad else ''), f, f.node)
